@@ -7,6 +7,7 @@ Line protocol of the C14 model (sums are exact integers: `M := Int`).
   C14 whole  <req> <parts>   finalize (collect all documents)
   C14 merged <req> <parts>   finalize (mergeFruits (parts.map collectSeg))   (with segment truncation)
   C14 limit  <n> <req> <parts>   finalizeGuarded n on the merged tree: `ok <res>` | `err <count>`
+  C14 defaults <size|_> <segment_size|_> <min_doc_count|_>   size, segment_size, min_doc_count, default bucket limit
   C14 histpos <interval> <offset> <v>      bucket position
   C14 rangeidx <cuts> <v>                  range bucket index
 
@@ -138,6 +139,12 @@ def handle : List String → String
       match finalizeGuarded n r (merged r parts) with
       | .ok res => "ok " ++ showRes r res
       | .error c => s!"err {c}"
+    | _, _, _ => "bad-op"
+  | ["defaults", size, seg, mdc] =>
+    match optInt size, optInt seg, optInt mdc with
+    | some size, some seg, some mdc =>
+      let p := TermsP.ofRequest 0 Option.none (size.map Int.toNat) (seg.map Int.toNat) (mdc.map Int.toNat) Option.none
+      s!"{p.size} {p.segSize} {p.minDocCount} {Gen.AGG_DEFAULT_BUCKET_LIMIT}"
     | _, _, _ => "bad-op"
   | ["histpos", iv, off, v] =>
     match iv.toInt?, off.toInt?, v.toInt? with
